@@ -11,7 +11,7 @@ CONSTANTS
   MaxElect = 3
   MaxCrash = 3
   MaxIsrOps = 3
-  MaxRejects = 1
+  MaxRejects = 2
   Policies = {"ALL", "LEADER", "NONE"}
   UseCheckpoint = TRUE
   Batch = 2
